@@ -304,6 +304,10 @@ def check(ctx):
         for fe in fes:
             form = forms[(n + len(fe)) % 3]
             add_run(tb, cfg, fe, "base", form, max_orders)
+            if prop == "C06" and n % 4 == 1 and len(tb["t"]) >= 2 and fe.split("+")[0] in ("pandas", "numpy_dict", "xarray", "pandas_idx"):
+                je = pipe_exec.joint_event(fe.split("+")[0], tb, cfg, wd, form=form)
+                je.update({"id": len(events) + 1, "rid": runs, "rel": {"kind": "base"}, "grp": grp})
+                events.append(je)
             if prop == "C18" and has_fault(tb, cfg) and fe not in ("qcconfig", "qcconfig_bare"):
                 hcfg = healthy_only(tb, cfg)
                 if fe == "numpy_arr" and not any(c["entries"] for c in hcfg):
